@@ -12,13 +12,14 @@ EMACS_ITEMS = {
     "print": [b"a", b"b", b" ", b"x"], "utf8": ["é".encode(), "中".encode(), "\U0001F600".encode()],
     "arrow": [b"\x1b[D", b"\x1b[C", b"\x1b[A", b"\x1b[B", b"\x1b[H", b"\x1b[3~", b"\x1b[1;5D"],
     "esc": [b"\x1bb", b"\x1bf", b"\x1bd", b"\x1b\x7f", b"\x1bu", b"\x1bt"], "cx": [b"\x18\x18", b"\x18\x15", b"\x18\x7f"],
-    "arg": [b"\x1b2", b"\x1b-", b"\x1b3"], "reader": [b"\x11x", b"\x16\x01", b"\x1d" + b"a", b"\x1b\x1da"],
+    "arg": [b"\x1b2", b"\x1b-", b"\x1b3"], "reader": [b"\x11x", b"\x16\x01", b"\x1d" + b"a", b"\x1b\x1da", b"\x11" + "中".encode(), b"\x16" + "é".encode(), b"\x1d" + "é".encode()],
     "ctrl": [b"\x01", b"\x05", b"\x0b", b"\x19", b"\x17", b"\x02", b"\x06", b"\x7f", b"\x1f", b"\x14"], "macro": [b"\x0f"], "comp": [b"\t"],
 }
 VI_ITEMS = {
     "ins": [b"iab\x1bl", b"A c\x1bh", b"ax\x1b0"], "move": [b"h", b"l", b"w", b"b", b"0", b"$", b"e"], "find": [b"fa", b"tb", b"Fa", b";"],
     "del": [b"x", b"dw", b"d$", b"db", b"dfa", b"dd"], "chg": [b"rz", b"~", b"cwq\x1bl", b"sQ\x1bh"], "arg": [b"2", b"3"],
     "reg": [b'"ayw', b'"ap', b"yw", b"p", b"P"], "undo": [b"u"], "utf8": ["ié\x1bl".encode(), "a中\x1bh".encode()], "arrow": [b"\x1b[D", b"\x1b[C"],
+    "uarg": ["r中".encode(), "ré".encode(), "f中".encode(), "té".encode(), "i中é\x1b0f中".encode()],
 }
 INPUTRC = "set convert-meta off\nset input-meta on\nset output-meta on\n\"\\C-o\": \"xy \"\n"
 
